@@ -15,6 +15,11 @@ def run(ctx):
     r9 = ctx.rule('R9', 'the concurrency policy (like every configured '
                   'policy) is applied before the items are scheduled', 'EXH')
     shared.policy_hooks_total(ctx, r9)
+    r11 = ctx.rule('R11', 'the named lock that serialises item completions '
+                   'is a uniquely named row inserted at once and deleted '
+                   'after the body (shared with C04.R11)', 'GD/PAIR')
+    from mstatic.rules import txqueue
+    txqueue.lock_primitives(ctx, r11)
     r10 = ctx.rule('R10', 'which item executions count as started, in '
                    'flight, done, to re-run (truth tables over state x '
                    'accepted)', 'DT (element predicates)')
